@@ -166,6 +166,58 @@ def suspend_paths(env, rep, rule, m):
     rep.floor(rule, "suspend (NotEnoughBytes) paths of the stage functions", n_susp, 6)
 
 
+def _only_from_get_next_message(b, u, t):
+    """the switch of block u discriminates a local all of whose definitions are (the `?`-payload of) a get_next_message result"""
+    op = t["discr"]
+    pl = op.get("m") or op.get("c")
+    if pl is None or pl.get("p"):
+        return False
+    d_local = pl["l"]
+    src = None
+    for st in b.blocks[u]["stmts"]:
+        if st["place"]["l"] == d_local and not st["place"]["p"] and st["rv"]["k"] == "discr":
+            src = st["rv"]["place"]["l"]
+    if src is None:
+        return False
+    seen = set()
+
+    def ok_local(L, depth=0):
+        if depth > 8:
+            return False
+        if L in seen:
+            return True
+        seen.add(L)
+        defs = 0
+        for blk in b.blocks:
+            if blk["cleanup"]:
+                continue
+            for st in blk["stmts"]:
+                if st["place"]["l"] == L and not st["place"]["p"]:
+                    defs += 1
+                    rv = st["rv"]
+                    if rv["k"] != "use":
+                        return False
+                    a = rv["a"]
+                    p2 = a.get("m") or a.get("c")
+                    if p2 is None or not ok_local(p2["l"], depth + 1):
+                        return False
+            tt = blk["term"]
+            if tt["k"] == "call" and tt["dest"]["l"] == L and not tt["dest"]["p"]:
+                defs += 1
+                name = tt["callee"].get("pretty") or ""
+                if name.endswith("get_next_message"):
+                    continue
+                if "Try" in (tt["callee"].get("orig_pretty") or name) and "branch" in name and tt["args"]:
+                    a = tt["args"][0]
+                    p2 = a.get("m") or a.get("c")
+                    if p2 is None or not ok_local(p2["l"], depth + 1):
+                        return False
+                    continue
+                return False
+        return defs >= 1
+    return ok_local(src)
+
+
 def run(env, rep):
     prog, ctx = env.prog, env.ctx
     rep.explanation = (
@@ -279,6 +331,10 @@ def run(env, rep):
                             desc = stable(it.eval_op(S, t["discr"]))
                     ok = desc is not None and (re.match(r"^discr\(call\([^()]*\)\)$", desc) is not None or
                                                re.match(r"^discr\(call\([^()]*get_next_message\) as Ok\.0\)$", desc) is not None)
+                    if not ok and t["k"] == "switch":
+                        # the message may be held in a local that is assigned before the loop and again at its end: every value that
+                        # reaches the scrutinised local must come from get_next_message
+                        ok = _only_from_get_next_message(hb, u, t)
                     if not ok:
                         badx.append("the loop is left on %s" % (("the decision " + desc[:100]) if desc else "a " + t["k"]))
             rep.check("C15.R5", "%s-loop-ends-only-when-no-message-is-left" % which, nx >= 2 and not badx,
